@@ -15,16 +15,19 @@ def scripts(rnd, quick):
     sc = []
     addrs = [0, 1, 0xFFFF, 0x10000, 0x7FFF0000 | 0xABCD, 0xFFFFFFFF]
     seqs = [0, 1, 0xFFFE, 0xFFFF, 0x1234]
+    if not quick:
+        addrs += [0xC0DBDCDD, 0x80000000, 0x00C00000]
+        seqs += [0xC0DB, 0x7FFF, 0x8000]
     specials = [END, ESC, 220, 221, 0, 255]
     for tr in (0, 1):
         for mem16 in (0, 1):
             for addr in addrs:
                 a = '%d %d' % (addr >> 16, addr & 0xFFFF)
-                for seq in (seqs if addr in (0, 0xFFFFFFFF) else seqs[:2]):
+                for seq in (seqs if addr in (0, 0xFFFFFFFF) or not quick else seqs[:2]):
                     for n in (0, 1, 2, 255, 256, 65535):
                         sc.append('emit 1 %d %d %d %s %d' % (tr, mem16, seq, a, n))
                         sc.append('emit 2 %d %d %d %s %d' % (tr, mem16, seq, a, n))
-                    lens = [1, 2, 3, 5, 16, 99, 100, 101, 115, 116, 117, 126, 127, 128, 129, 255, 256] if addr == 0 else [1, 4, rnd.randint(1, 300)]
+                    lens = [1, 2, 3, 5, 16, 99, 100, 101, 115, 116, 117, 126, 127, 128, 129, 255, 256] if addr == 0 or not quick else [1, 4, rnd.randint(1, 300)]
                     for n in lens:
                         pl = [rnd.choice(specials + [rnd.randint(0, 255)] * 3) for _ in range(n)]
                         sc.append('emit 3 %d %d %d %s %d %s' % (tr, mem16, seq, a, n, ' '.join(map(str, pl))))
